@@ -155,7 +155,13 @@ def run(tier):
                     c11.conversion_structure(ck, ctx, conv, T, ssx, ssy, key)
                 except Unsupported as ex:
                     ck.ob(key, 'UNDECIDED', f"analysis lost: {ex}")
+    # numeric budget (DESIGN.md 8.9): the code change of the round trip for every decoded in-gamut pixel
+    from .c09num import numeric_budget
+    try:
+        numeric_budget(ck, tier, STD_CURVES, STD_PRIMS)
+    except Unsupported as ex:
+        ck.ob('C09/budget', 'UNDECIDED', f"analysis lost: {ex}")
     ck.note('imported_stage_identities', ['C08 (decode/encode codes)', 'C10 (to_gamma o to_linear)', 'C06 (primaries there-and-back)', 'C05 (opsin inverse)', 'C11 (block structure for subsampled images)'])
-    ck.note('not_decided', ['the numeric budget max(1, 0.015*(2^n-1)) codes'])
+    ck.note('not_decided', ['the numeric budget for transfer BT470BG (gamma 2.8) and xvYCC with any primaries, and for the BT.1886 family with primaries BT470BG / ST170M / ST240M / P3DCI / Tech3213 (bounds 1.01 - 1.7 x budget, DESIGN.md 8.9); 105 of 130 (transfer, primaries) pairs are decided in the thorough tier'])
     ck.floor('triples', 20)
     return ck.finish()
